@@ -55,6 +55,9 @@ REQUIRED_COUNTERS = ['chain_end_states_compared', 'user_model_tables',
 DIRS = [(1 / 3, 1 / 3, 1 / 3), (0.5, 0.3, 0.2), (0.0, 1.0, 0.0),
         (1.0, 0.0, 0.0), (0.0, 0.0, 1.0), (0.2, 0.6, 0.2), (0.0, 0.4, 0.6),
         (0.7, 0.0, 0.3), (0.45, 0.55, 0.0), (0.05, 0.05, 0.9)]
+# components given as Python ints beside floats (what a JSON input with
+# "r_z": 0 produces): the number type must not change the channel (round 7)
+MIXED_DIRS = [(0.5, 0.5, 0), (0, 0.1, 0.9), (0.5, 0, 0.5), (1, 0, 0)]
 
 
 def ref_prob(tab, e, n):
@@ -446,7 +449,7 @@ def run_metropolis(task, out):
 
 def plan(tier, seed):
     tasks = []
-    dirs = DIRS if tier == 'thorough' else DIRS[:6]
+    dirs = (DIRS if tier == 'thorough' else DIRS[:6]) + MIXED_DIRS
     rates = [0.0, 0.07, 0.3, 1.0] if tier == 'thorough' else [0.07, 0.3]
     for cls, s, n in small_codes():
         if tier == 'quick' and n > 5:
